@@ -86,7 +86,9 @@ def gen(rng, tier):
             for n in rng.sample(cpool, rng.randint(1, 5))]
   return {'ops': ops, 'regs': regs, 'hooks': hooks,
           'bind_at': rng.randint(0, len(regs) - 1), 'dyn': dyn,
-          'consts': consts}
+          'consts': consts, 'alias': rng.random() < 0.4,
+          # a macro called like a constant's last name component, bound first
+          'macro_shadow': rng.random() < 0.4}
 
 
 # ---------------------------------------------------------------------------
@@ -257,6 +259,7 @@ def part_b(case, v, log, stats):
     received[name] = dict(named)
     return 'ret'
   registered = {}
+  originals = {}
   wrappers = {}
   prev_resolution = {}
   uid = [0]
@@ -279,6 +282,7 @@ def part_b(case, v, log, stats):
     # without an explicit module gin uses fn.__module__
     real_full = full if mod else 'ginsim_probes.' + nm
     registered[real_full] = pyname
+    originals[real_full] = obj
     wrappers[real_full] = wrappers.pop(full)
     log.add('register', real_full)
     stored = sorted(registered)
@@ -385,6 +389,42 @@ def part_b(case, v, log, stats):
               'after registering %r: %s with %s spelling %r (matches %r) '
               'succeeded: %r' % (stored, api, kind, q, want, res))
       log.add('lookup', q, sorted((a, s) for a, (s, _) in apis.items()))
+  # the same callable under a second name: every lookup by NAME addresses the
+  # entry stored under that name
+  if case.get('alias') and registered:
+    first = sorted(registered)[0]
+    try:
+      alias_conf = gin.external_configurable(originals[first], name='aliasfn',
+                                             module='al.m')
+      gin.bind_parameter(first + '.x', 'val-of-first')
+      gin.bind_parameter('al.m.aliasfn.x', 'val-of-alias')
+      for name, want_val, want_conf in (
+          (first, 'val-of-first', wrappers[first]),
+          ('al.m.aliasfn', 'val-of-alias', alias_conf),
+          ('aliasfn', 'val-of-alias', alias_conf)):
+        gb = gin.get_bindings(name)
+        if gb.get('x') != want_val:
+          v('C08.same_key', ['alias', 'get_bindings'],
+            '%r and al.m.aliasfn are one callable under two names: '
+            'get_bindings(%r) gives %r, bound %r' % (first, name, gb, want_val))
+        if gin.query_parameter(name + '.x') != want_val:
+          v('C08.same_key', ['alias', 'query'],
+            'query_parameter(%r) gives %r' %
+            (name + '.x', gin.query_parameter(name + '.x')))
+        for sel in (name, 'zq/' + name):
+          conf = gin.get_configurable(sel)
+          received.clear()
+          conf()
+          got = received.get(registered[first], {}).get('x')
+          if got != want_val:
+            v('C08.same_key', ['alias', 'get_configurable'],
+              'get_configurable(%r)() received x=%r, the entry of that name is '
+              'bound to %r' % (sel, got, want_val))
+      log.add('alias', first)
+    except Exception as e:  # pylint: disable=broad-except
+      v('C08.spelling_accepted', ['alias', type(e).__name__],
+        'alias scenario for %r raised %s: %s' %
+        (first, type(e).__name__, probes.scrub(str(e))[:300]))
   # finalize hooks: two spellings of one parameter must conflict
   if case['hooks'] and registered:
     stored = sorted(registered)
@@ -563,6 +603,15 @@ def part_d(case, v, log, stats):
   mk = {'obj': lambda n: probes.Tok(0, 'const:' + n), 'none': lambda n: None,
         'zero': lambda n: 0, 'false': lambda n: False, 'empty': lambda n: (),
         'str': lambda n: 'text:' + n}
+  if case.get('macro_shadow'):
+    # macros named like the constants' last components exist already: a
+    # %name that matches a constant is still that constant
+    for short in sorted({n.split('.')[-1] for n, _ in case['consts']}):
+      try:
+        gin.parse_config('%s = %r' % (short, 'macro-value-of-' + short))
+      except Exception as e:  # pylint: disable=broad-except
+        v('C08.constant_define', ['macro', type(e).__name__],
+          'defining macro %s raised %r' % (short, e))
   for name, kind in case['consts']:
     val = mk[kind](name)
     try:
